@@ -479,21 +479,44 @@ def failure_edges(body, call):
 # ------------------------------------------------------------------ Err exits
 
 def err_blocks(body):
-    """Blocks that put an error into the return place: `?` residual conversion or an explicit Err aggregate
-    (incl. bail!/ensure!).  A path from entry to Return avoiding all of them is an Ok path
-    (or a pass-through of a callee's Result, which is conservatively treated as Ok)."""
+    """Blocks that put an error into the return place: `?` residual conversion, an explicit Err aggregate
+    (incl. bail!/ensure!), or `Err(e).context(..)` / `_0 = move _x` where _x is an Err aggregate.
+    A path from entry to Return avoiding all of them is an Ok path (or a pass-through of a callee's Result,
+    which is conservatively treated as Ok)."""
+    if hasattr(body, '_err_blocks'):
+        return body._err_blocks
     out = set()
+    og = None
+
+    def is_err_value(op):
+        nonlocal og
+        if op.get('k') not in ('mv', 'cp') or op['pl'].get('p'):
+            return False
+        og = og or Origin(body, max_depth=6)
+        e = og.of_operand(op)
+        if e[0] == 'phi':
+            alts = e[1]
+        else:
+            alts = [e]
+        return bool(alts) and all(a[0] == 'agg' and a[1].endswith('Result::Err') for a in alts)
+
     for i, b in enumerate(body.blocks):
         t = b['t']
         if t['k'] == 'call':
             c = body.call_at(i)
-            if c.dest and c.dest['l'] == 0 and not c.dest.get('p') and c.is_('core::ops::try_trait::FromResidual::from_residual'):
-                out.add(i)
+            if c.dest and c.dest['l'] == 0 and not c.dest.get('p'):
+                if c.is_('core::ops::try_trait::FromResidual::from_residual'):
+                    out.add(i)
+                elif c.args and (c.is_(*_WRAPPERS) or _is_transparent(c)) and is_err_value(c.args[0]):
+                    out.add(i)
         for s in b['s']:
             if 'rv' in s and s['pl']['l'] == 0 and not s['pl'].get('p'):
                 rv = s['rv']
                 if rv['k'] == 'agg' and rv.get('ak') == 'adt' and rv.get('variant') == 'Err' and 'Result' in rv.get('adt', ''):
                     out.add(i)
+                elif rv['k'] == 'use' and is_err_value(rv['a']):
+                    out.add(i)
+    body._err_blocks = out
     return out
 
 
